@@ -113,14 +113,21 @@ impl Pool {
 		Pool { entries }
 	}
 	fn enc(&self, s: &[u32]) -> String {
+		// the whole string, else pool entries of three or more characters with literal runs between them
+		if let Some(e) = self.entries.iter().find(|e| e.0 == s) { return e.1.clone(); }
 		let mut parts: Vec<String> = vec![];
+		let mut run: Vec<u32> = vec![];
+		let flush = |run: &mut Vec<u32>, parts: &mut Vec<String>| {
+			if !run.is_empty() { parts.push(format!("[{}]", run.iter().map(|c| c.to_string()).collect::<Vec<_>>().join(";"))); run.clear(); }
+		};
 		let mut i = 0;
 		while i < s.len() {
-			match self.entries.iter().find(|e| s[i..].starts_with(&e.0)) {
-				Some(e) => { parts.push(e.1.clone()); i += e.0.len(); }
-				None => { parts.push(format!("[{}]", s[i])); i += 1; }
+			match self.entries.iter().find(|e| e.0.len() >= 3 && s[i..].starts_with(&e.0)) {
+				Some(e) => { flush(&mut run, &mut parts); parts.push(e.1.clone()); i += e.0.len(); }
+				None => { run.push(s[i]); i += 1; }
 			}
 		}
+		flush(&mut run, &mut parts);
 		if parts.len() == 1 { parts.pop().unwrap() } else { format!("(cat [{}])", parts.join("; ")) }
 	}
 	/// re-prints every numeric list literal `[n;n;...]` of a Gallina term
@@ -261,7 +268,15 @@ fn corpus(r: &mut Report, rng: &mut Rng) -> anyhow::Result<()> {
 			if file == "@asm" { let b = asm::assemble(&c, rng); classes.push((c, b)); continue; }
 			let path = if let Some(rest) = file.strip_prefix("@repo/") { std::path::Path::new(&repo).join(rest) } else { dir.join(&file) };
 			match std::fs::read(&path) {
-				Ok(b) => classes.push((c, b)),
+				Ok(b) => {
+					// the vendored description (javap) against the independent parser of fbh::classfile
+					match spec::abstract_class(&b) {
+						Ok(a) if a == c => r.count("corpus:spec-confirmed-by-independent-parser"),
+						Ok(a) => anyhow::bail!("{}: vendored description of {} differs from what fbh::classfile::raw reads:\n{}vs\n{}", sp.display(), file, show_class(&c), show_class(&a)),
+						Err(e) => anyhow::bail!("{}: fbh::classfile::raw rejects {}: {e}", sp.display(), file),
+					}
+					classes.push((c, b))
+				}
 				Err(_) => { missing = true; r.notes.push(format!("corpus class file {} not found; jar {} skipped", path.display(), sp.display())); }
 			}
 		}
@@ -279,15 +294,56 @@ fn corpus(r: &mut Report, rng: &mut Rng) -> anyhow::Result<()> {
 	Ok(())
 }
 
+/// the shared corpus /verif/corpus/classes (javac 8/11/17 output and classes of jars on the image):
+/// every directory is one jar; the abstract view comes from the independent parser
+fn big_corpus(r: &mut Report, rng: &mut Rng, thorough: bool) {
+	let mut dirs: std::collections::BTreeMap<String, Vec<(String, Vec<u8>)>> = Default::default();
+	for (path, bytes) in fbh::classfile::corpus::corpus_classes() {
+		let dir = path.rsplit_once('/').map(|x| x.0.to_string()).unwrap_or_default();
+		dirs.entry(dir).or_default().push((path, bytes));
+	}
+	let mut taken = 0;
+	// directories with the corpus' bridge classes first (the quick tier takes the first 40)
+	let mut dirs: Vec<(String, Vec<(String, Vec<u8>)>)> = dirs.into_iter().collect();
+	dirs.sort_by_key(|(d, fs)| (!fs.iter().any(|f| f.0.contains("Bridges")), d.clone()));
+	for (dir, files) in dirs {
+		if files.len() > 60 { r.count("corpus2:dir-too-large-for-tier"); continue; }
+		if !thorough && taken >= 40 { r.count("corpus2:dir-left-to-thorough"); continue; }
+		let mut classes = vec![];
+		for (path, bytes) in &files {
+			match spec::abstract_class(bytes) {
+				Ok(a) => classes.push((a, bytes.clone())),
+				Err(_) => r.count("corpus2:class-rejected-by-independent-parser"),
+			}
+		}
+		if classes.is_empty() { continue; }
+		taken += 1;
+		let abs: Vec<AClass> = classes.iter().map(|c| c.0.clone()).collect();
+		let jar = mem_jar(&classes);
+		// a class duke's reader rejects is C01/C16's business: such a jar cannot be compared here
+		match impl_spec(&jar) { Ok(None) => { r.count("corpus2:jar-not-readable-by-duke"); continue; } _ => {} }
+		r.count("corpus2:jars");
+		r.count_n("corpus2:classes", abs.len() as u64);
+		let wf = oracle::jar_wf(&abs);
+		do_spec(r, "corpus2", &abs, &jar, wf);
+		if abs.len() <= 12 {
+			let g = JarGen { classes: abs, libs: vec![] };
+			let (cal, maps) = gen_maps(rng, &g, &MapCfg { name_12: 9, swap_calamus: false, swap_named: false, absent_class_names: false });
+			do_add(r, "corpus2-add", &g, &jar, &[], &cal, &maps, wf);
+		}
+	}
+}
+
 fn run(ctx: &Ctx) -> anyhow::Result<Report> {
 	let mut r = Report::new("C15", "C15.Run");
-	r.shard_size = 100;
+	r.shard_size = 60;
 	r.rule = "jars are class files assembled in memory (own JVMS assembler, harness/src/bin/c15/asm.rs) from an abstract description: acyclic hierarchies over a pool of 10 in-jar and 6 external class names, per class a few patterns — flagged bridges, unflagged synthetics with generalised (Object / ancestor / external / equal) parameter and return types, and the near-misses not-synthetic, zero / two / repeated / array-class callees, arity mismatch, incompatible type, void-vs-value, private|static|final with and without the bridge flag, no Code, delegate in another class — plus the vendored javac-17 bridge classes and /repo's fixtures (abstract view from javap). Mapping sets: calamus (official->intermediary) and mappings (intermediary->named) naming each class / method involved with a per-case probability, delegate entries with javadoc and parameters, bridge keys named only in a super type, unrelated entries; extra streams: duplicate class / method keys, exchanged namespace order, wrong namespace names. Distinct = distinct (abstract jar, libraries, mapping sets); non-trivial = the documented rule yields at least one bridge pair (and, for the insertion, the mappings are not empty).".into();
 	let mut rng = Rng::new(ctx.seed);
 
 	corpus(&mut r, &mut rng)?;
+	big_corpus(&mut r, &mut rng, ctx.thorough);
 
-	let n = if ctx.thorough { 4000 } else { 300 };
+	let n = if ctx.thorough { 3000 } else { 300 };
 	let mut counts: Vec<String> = vec![];
 	for i in 0..n {
 		let stream = match i % 20 { 0..=13 => "patterns", 14 | 15 => "large", 16 | 17 => "dups", 18 => "swapped", _ => "badns" };
